@@ -519,12 +519,18 @@ func (s *State) diffIOSACLs(al, bl []*cmd, diff []edit.Range) {
 			moveOK := true
 			for i, b := range bl[r.LowB:r.HighB] {
 				moveOK = moveOK && action0 == getIOSAction(b)
-				p := s.printNetspocCmd(b)
-				p = stripLogRX.ReplaceAllLiteralString(p, "")
+				pLog := s.printNetspocCmd(b)
+				p := stripLogRX.ReplaceAllLiteralString(pLog, "")
 				// Entry can be moved only once, if ACL from Netspoc has
 				// duplicate lines.
 				if cmdPos, found := delMap[p]; found && cmdPos.cmd != nil {
-					moveACL(cmdPos, b, r.LowA, i, moveOK)
+					ignoreOK := moveOK
+					// Must not ignore move inside block,
+					// if attribute 'log' has changed.
+					if getPrintableCmd(cmdPos.cmd, s.a) != pLog {
+						ignoreOK = false
+					}
+					moveACL(cmdPos, b, r.LowA, i, ignoreOK)
 				} else {
 					addACL(b, r.LowA, i)
 				}
